@@ -111,6 +111,19 @@ def generate(rng, tier):
         ops.append([b'iter'])
         cases.append(sexp.dumps([b'c11', mode, ops]))
     yield ('random-typed', cases)
+    # long write lists with many repeated keys (collection of large iterators; bulk-building shortcuts must keep last-write-wins)
+    cases = []
+    for _ in range(300 if tier == 'quick' else 6000):
+        mode = rng.choice([b'from_iter', b'from_iter', b'set', b'capacity'])
+        ks = rng.sample(KEYS, rng.randint(2, 8))
+        ops = []
+        for j in range(rng.randint(21, 120)):
+            ops.append([b'set', rng.choice([b'b', b'o']), rng.choice(ks), [b'str', b'o', ('w%d' % j).encode()]])
+        for k in ks:
+            ops.append([b'get', rng.choice([b'b', b'o']), k])
+        ops.append([b'iter'])
+        cases.append(sexp.dumps([b'c11', mode, ops]))
+    yield ('long-write-lists', cases)
 
 
 def oracle(case, out):
